@@ -148,6 +148,40 @@ def contract(cell, ir):
              "round %d differs from round %d: %s" % (rnd, rnd - 1, what), None)]
 
 
+def invented_default_rule():
+    """
+    Shape rule on the argparse parser (parse_out_param): the default it INVENTS for a required argument that has none (the zero
+    of a simple type, else NoneStr) is derived from the raw `type=` keyword, i.e. BEFORE `choices=` / action='append' are folded
+    into the type.  The emitter re-emits an invented 0 / '' verbatim, but treats NoneStr as "not required": deriving the
+    default from the folded type (List[..], Literal[..]) makes round 2 differ from round 1.  -> (ok | None, detail)
+    """
+    f, _s, _p = extract.find_def("cdd.argparse_function.utils.emit_utils", "parse_out_param")
+    if f is None:
+        return None, "parse_out_param not found"
+    invent = [n for n in f.body if isinstance(n, ast.If) and ast.unparse(n.test) == "default is None" and "simple_types[typ]" in ast.unparse(n)]
+    folds = [n for n in f.body if (isinstance(n, ast.If) and ast.unparse(n.test) == "action == 'append'") or
+             (isinstance(n, (ast.Assign, ast.AnnAssign)) and ast.unparse(n.targets[0] if isinstance(n, ast.Assign) else n.target) == "typ" and "'choices'" in ast.unparse(n))]
+    if len(invent) != 1 or not folds:
+        return None, "the default-inventing `if default is None:` (%d found) or the statements that fold choices / append into the type (%d found) were not recognised" % (len(invent), len(folds))
+    ok = all(invent[0].lineno < x.lineno for x in folds)
+    return ok, ("the default invented for a required argument is computed (line %d) before choices / append are folded into the type (lines %s)" % (invent[0].lineno, [x.lineno for x in folds]) if ok
+                else "the default for a required argument is invented at line %d, AFTER the type was folded at line(s) %s" % (invent[0].lineno, [x.lineno for x in folds if x.lineno < invent[0].lineno]))
+
+
+def invented_default_replay(_name=None):
+    """three argparse rounds of required parameters whose type the emitter spells with choices= / action='append'"""
+    for typ_ in ("List[int]", "List[str]", "Literal['a', 'b']"):
+        ir = domain.make_ir(((typ_, domain.ABSENT, "the {name}"),))
+        for cell in (("argparse", "rest", True, None), ("argparse", "google", False, None)):
+            try:
+                r = contract(cell, ir)
+            except Exception:
+                continue
+            for key, what, _x in r:
+                return {"cell": list(cell), "ir": json.loads(json.dumps(ir, default=str)), "what": what[:300]}
+    return None
+
+
 def main(tier, write_baseline=False):
     run = Run("C08", tier, "other", checker_cmd=common.checker_cmd("C08", tier))
     M.RAISE_CTX.update(prop="C08", write=bool(write_baseline))
@@ -156,6 +190,11 @@ def main(tier, write_baseline=False):
     ok, detail = help_rule()
     run.add("C08/structural/argparse-help-verbatim", PROVED if ok else (UNDECIDED if ok is None else REFUTED), "rule-engine", detail=detail)
     rule_refuted, rule_inputs = run.confirm_or_undecide([("C08/structural/argparse-help-verbatim", detail)] if ok is False else [], help_replay)
+    ok2, detail2 = invented_default_rule()
+    run.add("C08/structural/argparse-invented-default-from-the-raw-type", PROVED if ok2 else (UNDECIDED if ok2 is None else REFUTED), "rule-engine", detail=detail2)
+    rr2, ri2 = run.confirm_or_undecide([("C08/structural/argparse-invented-default-from-the-raw-type", detail2)] if ok2 is False else [], invented_default_replay)
+    rule_refuted += rr2
+    rule_inputs.update(ri2)
     if write_baseline:
         common.write_baseline("C08", [n for n, o in run.obligations.items() if o["status"] == "proved"])
     compare_baseline(run, set(run.obligations))
